@@ -17,19 +17,20 @@ import (
 )
 
 type c14In struct {
-	Hosts []int    `json:"hosts"`
-	Sets  []preSet `json:"sets"`
-	Strs  []string `json:"strs"`
-	Lags  []int64  `json:"lags"`
-	Prios []int64  `json:"prios"`
-	Bound int64    `json:"bound"`
-	From  int      `json:"from"`
+	Hosts    []int    `json:"hosts"`
+	Sets     []preSet `json:"sets"`
+	Strs     []string `json:"strs"`
+	Lags     []int64  `json:"lags"`
+	Prios    []int64  `json:"prios"`
+	Bound    int64    `json:"bound"`
+	From     int      `json:"from"`
+	Quarters bool     `json:"quarters,omitempty"` // lags and bound are in quarters of a second (exact in float64 and in time.Duration); the rule is scale-invariant, the model sees the integers
 }
 
 func c14Positions(in c14In) []nodePosition {
 	var ps []nodePosition
 	for i := range in.Hosts {
-		ps = append(ps, nodePosition{host: fmt.Sprintf("h%d", in.Hosts[i]), gtidset: gtids.ParseGtidSet(in.Strs[i]), lag: float64(in.Lags[i]), priority: in.Prios[i]})
+		ps = append(ps, nodePosition{host: fmt.Sprintf("h%d", in.Hosts[i]), gtidset: gtids.ParseGtidSet(in.Strs[i]), lag: c14Lag(in, in.Lags[i]), priority: in.Prios[i]})
 	}
 	return ps
 }
@@ -40,7 +41,20 @@ func c14Call(in c14In) (string, error) {
 	if in.From != 0 {
 		ps = filterOutNodeFromPositions(ps, fmt.Sprintf("h%d", in.From))
 	}
+	if in.Quarters {
+		return getMostDesirableNode(&nop, ps, time.Duration(in.Bound)*(time.Second/4))
+	}
 	return getMostDesirableNode(&nop, ps, time.Duration(in.Bound)*time.Second)
+}
+
+func c14Lag(in c14In, l int64) float64 {
+	if in.Quarters && l < 99999999 {
+		return float64(l) / 4
+	}
+	if in.Quarters {
+		return float64(l) // "unknown" stays the huge constant of the code; scaled below in the model's view
+	}
+	return float64(l)
 }
 
 // The real function recurses; a non-terminating variant would blow the stack
@@ -180,6 +194,15 @@ func c14Gen(o *vk.Out) c14In {
 		in.Prios = append(in.Prios, int64(o.Rng.Intn(3))*5)
 	}
 	in.Bound = []int64{0, 0, 1, 5, 10, 50, 500}[o.Rng.Intn(7)]
+	if o.Rng.Intn(3) == 0 {
+		// fractional lags and a bound that is not a whole number of seconds
+		in.Quarters = true
+		q := []int64{0, 1, 2, 3, 4, 5, 6, 7, 8, 15, 16, 20, 21, 22}
+		for i := range in.Lags {
+			in.Lags[i] = q[o.Rng.Intn(len(q))]
+		}
+		in.Bound = []int64{1, 2, 3, 5, 6, 7}[o.Rng.Intn(6)]
+	}
 	if k > 0 && o.Rng.Intn(2) == 0 {
 		in.From = 1 + o.Rng.Intn(k)
 	}
